@@ -7,7 +7,6 @@ package workflow
 // abstract-step harnesses and serves C09 (the result of a healthy chain does not depend on scheduling).
 
 import (
-	"go.flow.arcalot.io/engine/config"
 	"go.flow.arcalot.io/engine/internal/step"
 	"go.flow.arcalot.io/engine/internal/step/plugin"
 	"go.flow.arcalot.io/engine/internal/verifrt"
@@ -109,7 +108,7 @@ func verifPrepareRunnables(steps []VerifStep, outputs map[string]any) *executabl
 		}
 		wf.Steps[s.ID] = data
 	}
-	e := &executor{logger: vLogger{}, config: &config.Config{}, stepRegistry: reg}
+	e := &executor{logger: vLogger{}, config: verifConfig(), stepRegistry: reg}
 	return verifRealPrepare(e, wf)
 }
 
